@@ -127,6 +127,9 @@ func WConfig(prop, tier string) *Config {
 		if prop == "C20" {
 			second = []string{"empty", "ts_execute_each_bot", "ts_cancel_all_by_own1"}
 		}
+		if prop == "C10" {
+			second = []string{"empty", "perp_bot_close_all", "llp_bot_close_all", "price_atom_4"}
+		}
 		cfg.Phases = append(cfg.Phases, Phase{Name: "multi-msg-tx-depth2", Roots: []string{"R1"}, Ops: append(append([]string{}, tp...), second...), First: tp, Second: second, Depth: 2, Dev: 4})
 	}
 	if tier != "thorough" {
